@@ -185,7 +185,7 @@ def field_validator_report(run_label: str = f"{PY_REL}::_generate_field_validato
         n = force(c, interp.getattr(c, a["type_def"], "name")).t
         kinds = ["base", "reference", "array", "map", "and", "or", "tuple", "literal", "stringLiteral"]
         v = force(c, interp.getattr(c, a["type_def"], "value")).t
-        return And(Or(*[Eq(k, smt.sstr(x)) for x in kinds]), smt.Implies(Eq(k, smt.sstr("base")), Or(*[Eq(n, smt.sstr(x)) for x in names])), Not(smt.Contains(v, smt.sstr("'"))))
+        return And(Or(*[Eq(k, smt.sstr(x)) for x in kinds]), smt.Implies(Eq(k, smt.sstr("base")), Or(*[Eq(n, smt.sstr(x)) for x in names])), Not(smt.Contains(v, smt.sstr("'"))), Not(smt.Contains(v, smt.sstr('"'))))
 
     def post(c, a, impl):
         if impl[0] != "return":
@@ -198,7 +198,11 @@ def field_validator_report(run_label: str = f"{PY_REL}::_generate_field_validato
         v = force(c, interp.getattr(c, a["type_def"], "value")).t
         opt = interp.truth_term(c, a["optional"])
         is_lit = Eq(k, smt.sstr("stringLiteral"))
-        lit_ok = And(smt.Contains(r.t, smt.Concat(smt.sstr("in_(['"), v, smt.sstr("'])"))), smt.Contains(r.t, smt.Concat(smt.sstr("default='"), v, smt.sstr("'"))))
+        # quote style of the emitted text is irrelevant (same syntax tree): accept ' or "
+        lit_ok = And(
+            Or(*[smt.Contains(r.t, smt.Concat(smt.sstr("in_([" + q), v, smt.sstr(q + "])"))) for q in ("'", '"')]),
+            Or(*[smt.Contains(r.t, smt.Concat(smt.sstr("default=" + q), v, smt.sstr(q))) for q in ("'", '"')]),
+        )
         clauses = []
         for tok in all_tokens:
             want = Or(*[And(Eq(k, smt.sstr("base")), Eq(n, smt.sstr(b))) for b, t in VALIDATOR_TOKENS.items() if t == tok])
